@@ -321,6 +321,16 @@ def _s3d(n, m, k, db):
     return or_(n.parent.tag == k[0], n.leaf.v == k[0]), lambda o, ns: True
 
 
+@shape("n.tag < 2.5 (a float literal against an integer column)")
+def _s3e(n, m, k, db):
+    return n.tag < 2.5, lambda o, ns: True
+
+
+@shape("or_(n.tag == 2.5, n.tag >= -0.5)", core=False)
+def _s3f(n, m, k, db):
+    return or_(n.tag == 2.5, n.tag >= -0.5), lambda o, ns: True
+
+
 @shape("n.leaf.v > k0", need_leaf=True)
 def _s4(n, m, k, db):
     return n.leaf.v > k[0], lambda o, ns: o.leaf.v > k[0]
